@@ -216,6 +216,9 @@ type c06Spec struct {
 	SepKind string // plain | unexecuted-if | executed-if
 	Dummy   []byte
 	Flags   uint32
+	// UnlockTail is appended to the unlocking script after the pushes (e.g. an
+	// executed OP_CODESEPARATOR and/or a top-level OP_RETURN ending the script)
+	UnlockTail []byte
 }
 
 func smallOp(n int) []byte {
@@ -359,6 +362,7 @@ func c06Make(r *prng.R, sp *c06Spec) *c06Case {
 		for _, t := range unlockTail {
 			u = append(u, t...)
 		}
+		u = append(u, sp.UnlockTail...)
 		return u
 	}
 	place := make([][]byte, len(sp.Slots))
@@ -460,7 +464,7 @@ func c06Legal(sp *c06Spec) bool {
 func init() {
 	p := &mon.Property{
 		ID: "C06",
-		Rule: "Spending transactions (1-4 inputs, 0-4 outputs) with P2PK, P2PKH, CHECKSIGVERIFY, two-check and m-of-n CHECKMULTISIG(VERIFY) locking scripts; OP_CODESEPARATOR inserted at every element position (plain, inside an unexecuted IF, inside an executed IF); each signature slot is correct / signed by another key / over another digest / empty / high-S / undefined hash type / non-DER (only under a DER-enforcing flag) / correct but with a FORKID bit that contradicts the FORKID flag (only under strict encoding); keys compressed, uncompressed, hybrid, truncated, bad prefix, off curve; for n <= 3 every assignment of keys and classes to the m slots; all 2^6 subsets of the signature flags x both eras on a core set; half of the programs end in OP_NOT. " +
+		Rule: "Spending transactions (1-4 inputs, 0-4 outputs) with P2PK, P2PKH, CHECKSIGVERIFY, two-check and m-of-n CHECKMULTISIG(VERIFY) locking scripts; OP_CODESEPARATOR inserted at every element position (plain, inside an unexecuted IF, inside an executed IF); unlocking scripts optionally continued after the pushes by an executed OP_CODESEPARATOR and/or a top-level OP_RETURN; each signature slot is correct / signed by another key / over another digest / empty / high-S / undefined hash type / non-DER (only under a DER-enforcing flag) / correct but with a FORKID bit that contradicts the FORKID flag (only under strict encoding); keys compressed, uncompressed, hybrid, truncated, bad prefix, off curve; for n <= 3 every assignment of keys and classes to the m slots; all 2^6 subsets of the signature flags x both eras on a core set; half of the programs end in OP_NOT. " +
 			"Signatures are produced in two passes (the model first reports the script code in force at each check, then the real signatures are made over the digest the node rules demand) and judged by provenance; the library's verdict and per-step stacks must equal the model's. " +
 			"distinct_nontrivial = distinct (unlock, lock, flags, input) on which at least one signature check was evaluated and both agreed.",
 		Assum: []string{"signature validity in the model = (registered key, registered digest) equals (supplied key, digest demanded by the node rules via /verif/internal/refsighash); real ECDSA is only run by the library",
@@ -491,7 +495,7 @@ func init() {
 			}
 			cs := c06Make(r, sp)
 			cs.Class = class
-			cs.Desc = fmt.Sprintf("%s m=%d n=%d verify=%v not=%v sep=%d/%s slots=%+v keyenc=%v", sp.Kind, sp.M, sp.N, sp.Verify, sp.Not, sp.SepPos, sp.SepKind, sp.Slots, sp.KeyEnc)
+			cs.Desc = fmt.Sprintf("%s m=%d n=%d verify=%v not=%v sep=%d/%s slots=%+v keyenc=%v unlocktail=%x", sp.Kind, sp.M, sp.N, sp.Verify, sp.Not, sp.SepPos, sp.SepKind, sp.Slots, sp.KeyEnc, sp.UnlockTail)
 			judge(c, cs)
 		}
 		flagsFor := func(r *prng.R) uint32 {
@@ -539,6 +543,9 @@ func init() {
 									fl := flagsFor(r)
 									fork := scriptflag.Flag(fl)&scriptflag.EnableSighashForkID != 0
 									sp := &c06Spec{Kind: kind, Not: r.Chance(1, 2), SepPos: sepPos, SepKind: sk, Flags: fl, KeyEnc: []string{ke}, N: 1}
+									if r.Chance(1, 3) {
+										sp.UnlockTail = prng.Pick(r, [][]byte{{0xab}, {0xab, 0x6a}, {0x61, 0xab, 0x6a}, {0x6a}, {0x61, 0x61, 0xab, 0x61, 0x6a}, {0x51, 0x63, 0xab, 0x68, 0x6a}})
+									}
 									if kind == "p2pk-verify" {
 										sp.Kind, sp.Verify = "p2pk", true
 									}
@@ -584,6 +591,9 @@ func init() {
 							}
 							if r.Chance(1, 6) {
 								sp.Dummy = []byte{0x01}
+							}
+							if r.Chance(1, 5) {
+								sp.UnlockTail = prng.Pick(r, [][]byte{{0xab}, {0xab, 0x6a}, {0x61, 0xab, 0x6a}, {0x6a}})
 							}
 							for i := 0; i < N; i++ {
 								sp.KeyEnc = append(sp.KeyEnc, prng.Pick(r, []string{"c", "c", "u", "c", "u", "h", "badprefix"}))
